@@ -16,7 +16,9 @@ CONSTANTS Family,      \* "flow" | "match" | ...
           MaxChain,
           Phases,
           Engines,
-          Slice, Slices   \* this TLC process explores slice Slice of Slices of the family
+          Slice, Slices,  \* this TLC process explores slice Slice of Slices of the family
+          CacheOn,        \* TRUE: interpret with the EngineCache layer
+          CacheDesign     \* "positional" | "byValue": the key of the transformation cache
 
 VARIABLES pick, scen, st, p, i, rxMode, done,
           lastBranch   \* observation only
@@ -29,12 +31,14 @@ Picks ==
     [] Family = "operate" -> OperatePicks(N, Phases, Slice, Slices)
     [] Family = "chain"   -> ChainPicks(N, MaxChain, Phases, Slice, Slices)
     [] Family = "acts"    -> ActsPicks(N, MaxChain > 0, Slice, Slices)
+    [] Family = "cache"   -> CachePicks(N, MaxChain > 0, Slice, Slices)
 ScenOf(pk) ==
   CASE Family = "flow"    -> FlowScen(pk)
     [] Family = "select"  -> SelectScen(pk)
     [] Family = "operate" -> OperateScen(pk)
     [] Family = "chain"   -> ChainScen(pk)
     [] Family = "acts"    -> ActsScen(pk)
+    [] Family = "cache"   -> CacheScen(pk)
 
 HasRx(sc) ==
   \E ri \in 1..Len(sc.rules) : \E li \in 1..Len(sc.rules[ri].links) :
@@ -46,7 +50,7 @@ Init ==
   /\ pick \in Picks
   /\ scen = ScenOf(pick)
   /\ rxMode \in (IF HasRx(scen) THEN {RxMode(m) : m \in RxModes} ELSE {RxMode("orig")})
-  /\ st = InitState(scen.engine)
+  /\ st = [InitState(scen.engine) EXCEPT !.cacheOn = CacheOn, !.cacheKeyDesign = CacheDesign]
   /\ p = 1
   /\ i = 1
   /\ done = FALSE
@@ -119,6 +123,10 @@ FiredInOrder ==
 
 \* every fired rule carries match data, every datum satisfied the link it belongs to
 FiredHaveData == \A a \in 1..Len(st.fired) : st.fired[a].md # << >>
+
+\* sharing transformation work never hands a rule a value other than its own transformation of
+\* the datum it is looking at (C12)
+CacheSound == ~st.unsound
 
 \* an interruption is final, and nothing of phases 1-4 fires after it (C02)
 InterruptFinal == [][st.intr # None => st'.intr = st.intr]_vars
